@@ -463,11 +463,13 @@ func (g *FuncGen) sliceSetOf(heap, sl string, elem types.Type) string {
 	c.declared[key] = true
 	c.useQuant = true
 	zero := c.intLit64(0, 64)
-	c.assert(fmt.Sprintf("(forall ((qi %s)) (=> %s (select %s (select %s %s))))", i64,
-		and(g.le64(zero, "qi"), g.lt64("qi", ln)), t, data, g.add64(off, "qi")))
-	wi := fmt.Sprintf("(%s_idx %s %s %s qx)", fn, data, off, ln)
-	c.assert(fmt.Sprintf("(forall ((qx %s)) (! (=> (select %s qx) %s) :pattern ((select %s qx))))", es, t,
-		and(g.le64(zero, wi), g.lt64(wi, ln), eq(fmt.Sprintf("(select %s %s)", data, g.add64(off, wi)), "qx")), t))
+	c.global(func() {
+		c.assert(fmt.Sprintf("(forall ((qi %s)) (=> %s (select %s (select %s %s))))", i64,
+			and(g.le64(zero, "qi"), g.lt64("qi", ln)), t, data, g.add64(off, "qi")))
+		wi := fmt.Sprintf("(%s_idx %s %s %s qx)", fn, data, off, ln)
+		c.assert(fmt.Sprintf("(forall ((qx %s)) (! (=> (select %s qx) %s) :pattern ((select %s qx))))", es, t,
+			and(g.le64(zero, wi), g.lt64(wi, ln), eq(fmt.Sprintf("(select %s %s)", data, g.add64(off, wi)), "qx")), t))
+	})
 	return t
 }
 
